@@ -4,3 +4,4 @@ pub mod astwalk;
 pub mod ser;
 pub mod schema;
 pub mod introspect;
+pub mod exec;
